@@ -217,6 +217,39 @@ func ruleENTRYGUARD(c *Ctx) {
 	}
 }
 
+// GUARD(final): the initial partition of minimize consults Tables.FinalStates. The generated
+// parse loop stops as soon as `state == end`, which is no parsing action and therefore not part
+// of any action signature: a final state merged with a state of equal actions (a left-recursive
+// no-eoi input: the state after `A` and the state after the first token both only shift) makes
+// the parser stop — and accept — in the middle of a sentence.
+func ruleFINALGUARD(c *Ctx) {
+	const rule = "GUARD(final)"
+	f := c.SSAFunc("lalr", "partitionStatesByAction")
+	if f == nil {
+		c.Lost(rule, "lalr.partitionStatesByAction", "function not found")
+		return
+	}
+	var pos token.Pos
+	reads := false
+	fs := append([]*ssa.Function{f}, f.AnonFuncs...)
+	for _, g := range fs {
+		for _, b := range g.Blocks {
+			for _, ins := range b.Instrs {
+				if fa, ok := ins.(*ssa.FieldAddr); ok && fieldName(fa.X.Type(), fa.Field) == "FinalStates" {
+					reads = true
+					pos = fa.Pos()
+				}
+			}
+		}
+	}
+	key := "lalr.partitionStatesByAction:final-states"
+	if reads {
+		c.Ok(rule, key, pos, "the initial partition consults Tables.FinalStates (reaching the final state ends the parse, so final states may only be merged with final states)")
+	} else {
+		c.Bad(rule, key, f.Pos(), "the initial partition never looks at Tables.FinalStates: a final state with the same parsing actions as an ordinary state is merged with it, and the generated parser stops (accepts) whenever it reaches the merged state")
+	}
+}
+
 // MUSTPASS(compile-order) and GUARD(optimize-la) on lalr.Compile.
 func ruleCOMPILEORDER(c *Ctx) {
 	const rule = "MUSTPASS(compile-order)"
